@@ -722,7 +722,7 @@ func TestVerifProbe_F07b(t *testing.T) {
 	c.apply(c09Op{K: "write", Ents: []*kit.Ent{e(0, "a"), e(1, "a")}})
 	c.apply(c09Op{K: "jobStart", Run: 1})
 	c.apply(c09Op{K: "http", Ents: []*kit.Ent{e(0, "b")}}) // id-less batch joins the job sync and starts a lease
-	c.apply(c09Op{K: "jobEnd", Run: 1})                     // completes: e1 deleted
+	c.apply(c09Op{K: "jobEnd", Run: 1})                    // completes: e1 deleted
 	c.apply(c09Op{K: "jobStart", Run: 2})
 	c.apply(c09Op{K: "write", Ents: []*kit.Ent{e(0, "c")}})
 	time.Sleep(c09Lease + 50*time.Millisecond) // the first sync's timer fires now
